@@ -57,9 +57,9 @@ def seq_classes():
 
 
 def run(tier, seed, rng):
-    curs = range(0, 16) if tier == 'quick' else range(0, 24)
-    ipps = range(0, 8) if tier == 'quick' else range(0, 12)
-    mvs = range(-3, 7) if tier == 'quick' else range(-5, 10)
+    curs = range(0, 16) if tier == 'quick' else range(0, 40)
+    ipps = range(0, 8) if tier == 'quick' else range(0, 16)
+    mvs = range(-3, 7) if tier == 'quick' else range(-8, 17)
     cases = []
     for al, ref, mv, cur, ipp, d in itertools.product((0, 1), REFS, mvs, curs, ipps, 'up'):
         form = ('const', 'field', 'callable')[(mv + cur + ipp) % 3]
@@ -93,7 +93,7 @@ def run(tier, seed, rng):
     blocks = seq_classes()
     scases, smeta = [], []
     for a in range(1, 7):
-        for off in range(0, 8 if tier == 'quick' else 16):
+        for off in range(0, 8 if tier == 'quick' else 32):
             for n in (0, 1, 2, 3):
                 for w in (1, 2):
                     # build an input: offset padding, n, then elements each at the next multiple of a (absolute)
